@@ -3,7 +3,7 @@ CONSTANTS
   Scenario = "small"
   MaxOps = 9
   CompSet = {"none", "static", "tree", "hash"}
-  TgtSet = {"vec", "array", "stream"}
+  TgtSet = {"vec", "array", "stream", "sarray"}
 SPECIFICATION Spec
 INVARIANT Emit
 CHECK_DEADLOCK FALSE
